@@ -363,6 +363,11 @@ class TAPParser:
     _RE_YAML_START = re.compile(r'(\s+)---.*')
     _RE_YAML_END = re.compile(r'\s+\.\.\.\s*')
 
+    # Numbers with more digits than this are reported as a parse error instead of being
+    # converted: CPython refuses int()/str() beyond sys.get_int_max_str_digits() digits
+    # (ValueError), and no TAP producer numbers its tests that high.
+    _MAX_NUMBER_DIGITS = 100
+
     found_late_test = False
     bailed_out = False
     plan: T.Optional[Plan] = None
@@ -444,7 +449,11 @@ class TAPParser:
                     yield self.Error('unexpected test after late plan')
                     self.found_late_test = True
                 self.num_tests += 1
-                self.last_test = self.last_test + 1 if m.group(2) is None else int(m.group(2))
+                num = m.group(2)
+                if num is not None and len(num) > self._MAX_NUMBER_DIGITS:
+                    yield self.Error('test number too large')
+                    num = None
+                self.last_test = self.last_test + 1 if num is None else int(num)
                 self.highest_test = max(self.highest_test, self.last_test)
                 self.seen_tests.add(self.last_test)
                 if self.plan and self.last_test > self.plan.num_tests:
@@ -459,6 +468,9 @@ class TAPParser:
                 if self.plan:
                     yield self.Error('more than one plan found')
                 else:
+                    if len(m.group(1)) > self._MAX_NUMBER_DIGITS:
+                        yield self.Error('number of tests in the plan too large')
+                        return
                     num_tests = int(m.group(1))
                     skipped = num_tests == 0
                     if m.group(2):
@@ -484,6 +496,9 @@ class TAPParser:
                 # The TAP version is only accepted as the first line
                 if self.lineno != 1:
                     yield self.Error('version number must be on the first line')
+                    return
+                if len(m.group(1)) > self._MAX_NUMBER_DIGITS:
+                    yield self.Error('version number too large')
                     return
                 self.version = int(m.group(1))
                 if self.version < 13:
